@@ -212,5 +212,91 @@ if "C10" in props.PROPS:
     props.PROPS["C10"].post.append(token_big)
     props.PROPS["C10"].big_replay = token_big_replay
 
+
+# ---------------------------------------------------------------------------
+# C09 big-number tier: the token module on the real chain with maxima up to
+# MaxUint64 main units and scales up to 18 (harness/cmd/tokencap); the
+# CapClauses.tla operators Token.tla's C09_Cap / C09_Burned are made of.
+CAP_FIELDS = [("op", "Str"), ("ok", "Bool"), ("isOwner", "Bool"), ("mintable", "Bool"), ("max", "Int"), ("max2", "Int"),
+              ("newMax", "Int"), ("w", "Int"), ("circ", "Int"), ("circ2", "Int"), ("amt", "Int"),
+              ("burned", "Int"), ("burned2", "Int"), ("bal", "Int"), ("bal2", "Int")]
+CAP_STEPOK = """  /\\ CapKeptW(s.circ, s.max, s.circ2, s.max2, s.w)
+  /\\ (s.op = "Edit" => EditMaxW(s.ok, s.newMax, s.max2, s.w, s.circ2))
+  /\\ ((s.op = "Burn" /\\ s.ok) => BurnExactW(s.amt, s.burned, s.burned2, s.circ, s.circ2, s.bal, s.bal2))
+  /\\ TallyW(s.burned, s.burned2, s.op = "Burn" /\\ s.ok)
+  /\\ ((s.op \\in {"Mint", "Edit", "Transfer"} /\\ s.ok) => s.isOwner)
+  /\\ ((s.op = "Mint" /\\ s.ok) => s.mintable)
+  /\\ ((s.circ2 > s.circ) => (s.ok /\\ s.op \\in {"Mint", "Issue"}))
+  /\\ ((s.max2 # s.max) => (s.ok /\\ s.op = "Edit"))
+  /\\ ((~s.ok) => (s.circ2 = s.circ /\\ s.burned2 = s.burned /\\ s.bal2 = s.bal))"""
+CAP_SIZES = {"quick": (4, 6), "thorough": (24, 30)}
+
+
+def _cap_rows(seed, n, ln, out):
+    p = subprocess.run([vlib.harness_bin("tokencap"), "rows", "-seed", str(seed), "-n", str(n), "-len", str(ln), "-out", out],
+                       capture_output=True, text=True, timeout=1200)
+    if p.returncode != 0:
+        raise Inconclusive("harness-tokencap failed: " + p.stderr[-1000:])
+    return json.load(open(out))
+
+
+def _cap_text(r):
+    return (f"{r['op']} on {r['sym']} by {r['who']} (history {r['hist']} step {r['step']}, ok={r['ok']}): max {r['max']} -> {r['max2']} "
+            f"main units of {r['w']} min units, circulating {r['circ']} -> {r['circ2']}, amount {r['amt']}, "
+            f"burned {r['burned']} -> {r['burned2']}")
+
+
+def token_cap_big(check, pid, tier, seed, work):
+    """C09: issue / mint / burn / edit / transfer-owner on the real chain with
+    maximum supplies up to MaxUint64 main units, scales 0..18, mints landing
+    exactly on the cap and one beyond, fractional burns, the maximum lowered to
+    what circulates and one below."""
+    vlib.build_harness("tokencap")
+    sub = os.path.join(work, "capbig")
+    os.makedirs(sub, exist_ok=True)
+    vlib.copy_specs(sub)
+    n, ln = CAP_SIZES[tier]
+    rows = _cap_rows(seed, n, ln, os.path.join(sub, "caprows.json"))
+    ok, failing, wall = vlib.apalache_steps(sub, "TokenCapBig", "CapClauses", CAP_FIELDS, rows, CAP_STEPOK)
+    atcap = sum(1 for r in rows if r["op"] == "Mint" and r["ok"] and int(r["circ2"]) == int(r["max2"]) * int(r["w"]))
+    cov = {"big_steps": len(rows), "big_steps_ok": ok, "big_mints_to_cap": atcap, "big_wall_s": round(wall, 1),
+           "big_rule": "rows = token messages (issue, mint, burn, edit, transfer-owner; accepted and rejected) executed on the "
+                       "real chain with maxima up to MaxUint64 main units, scales 0/1/6/18, amounts up to MaxUint64*10^18; one "
+                       "row per message with maximum, circulating amount, burned tally and sender balance before/after; "
+                       "clauses of CapClauses.tla (the operators of C09_Cap / C09_Burned) and the authority / rejection "
+                       "conditions evaluated by Apalache 0.58 / Z3",
+           "big_samples": rows[:2]}
+    log(f"[big] {len(rows)} big-number rows ({atcap} mints exactly to the cap) from the real chain evaluated by Apalache: "
+        f"{ok} ok, {len(failing)} failing ({wall:.0f}s)")
+    viol = []
+    if failing:
+        os.makedirs(os.path.join(ROOT, "replays"), exist_ok=True)
+        path = os.path.join(ROOT, "replays", f"{pid}-{tier}-seed{seed}.bigrows.json")
+        json.dump({"seed": seed, "n": n, "len": ln, "failing": [rows[i] for i in failing]}, open(path, "w"), indent=1)
+        viol.append((path, "big-number row violates the C09 clauses: " + _cap_text(rows[failing[0]])))
+    return viol, cov
+
+
+def token_cap_big_replay(check, pid, path, work, seed):
+    """Re-run the recorded driver run (same seed and sizes) on the real chain and evaluate again."""
+    meta = json.load(open(path))
+    vlib.build_harness("tokencap")
+    sub = os.path.join(work, "capreplay")
+    os.makedirs(sub, exist_ok=True)
+    vlib.copy_specs(sub)
+    rows = _cap_rows(meta["seed"], meta["n"], meta["len"], os.path.join(sub, "caprows.json"))
+    ok, failing, wall = vlib.apalache_steps(sub, "TokenCapBig", "CapClauses", CAP_FIELDS, rows, CAP_STEPOK)
+    if failing:
+        log("replay: " + _cap_text(rows[failing[0]]) + " violates the C09 clauses")
+        print(f"VIOLATION property={pid} replay={path}", flush=True)
+        return 1
+    log("replay: all rows satisfy the C09 clauses")
+    return 0
+
+
+if "C09" in props.PROPS:
+    props.PROPS["C09"].post.append(token_cap_big)
+    props.PROPS["C09"].big_replay = token_cap_big_replay
+
 PROPS = {}
 TEXT = {}
